@@ -20,7 +20,7 @@ EXHAUSTIVE_SUBDOMAINS = ["UF x RR x DI x RRS (131072 cells)", "UF11: PR x CL x I
                          "DI in {0,1,7} x IIS x LOS and DI=3 x SIS x LSS for UF 4/5/20/21"]
 ASSUMPTIONS = ["for DI values other than 0,1,3,7 only UF, BDS1 and the agreement of uplink_fields() with the single-field "
                "functions are judged (the SD sub-fields for those DI codes are not asserted from memory)"]
-REQUIRED = ["addr56", "addr112", "uf11", "rollcall", "other_uf", "di0", "di1", "di3", "di7", "di_other", "rr_low", "rr_high",
+REQUIRED = ["fields_redecode_after_caller_edit", "addr56", "addr112", "uf11", "rollcall", "other_uf", "di0", "di1", "di3", "di7", "di_other", "rr_low", "rr_high",
             "fields_agree"]
 
 
@@ -100,8 +100,8 @@ def m_fields(ctx, case):
             hdr = (ufv << 11) | (pc << 8) | (rr << 3) | di
             pr = icf = cl = 0
         rest = n - 24 - 32
-        sdv = sd if ufv != 11 else rng.getrandbits(16)
-        data = (hdr << 16 | sdv) << rest | (rng.getrandbits(rest) if rest else 0)
+        sdv = sd if ufv != 11 else rng.fill(16)
+        data = (hdr << 16 | sdv) << rest | (rng.fill(rest) if rest else 0)
         f = bits.uplink(data, n, sub["addr"])
         hx = "%0*X" % (n // 4, f)
         if rng.random() < 0.1:
@@ -140,6 +140,17 @@ def m_fields(ctx, case):
         if not isinstance(fl, dict):
             ctx.violation("uplink_fields-shape", frame=hx, observed=repr(fl)[:100])
             continue
+        if ctx.rng.random() < 0.1:
+            # the returned dict belongs to the caller: editing it must not change the next decode of the same frame
+            snap = dict(fl)
+            fl.clear()
+            fl["UF"] = "edited"
+            again = call(uplink.uplink_fields, hx)
+            ctx.ev()
+            ctx.hit("fields_redecode_after_caller_edit")
+            if again[0] != "ok" or again[1] != snap:
+                ctx.violation("uplink_fields-changes-after-caller-edited-earlier-result", frame=hx, first=snap, second=again[1:])
+            fl = snap
         pairs = [("IC", got["ic"][1]), ("LOS", got["lockout"][1]), ("PR", got["pr"][1]), ("BDS", got["bds"][1])]
         for k, single in pairs:
             v = fl.get(k, "MISSING")
@@ -172,11 +183,11 @@ def cases(ctx):
         for a in structured:
             for rep in range(2):
                 if ctx.mine(i):
-                    yield "addr", {"n": n, "addr": a, "data": "%X" % (rng.getrandbits(n - 24) if rep else 0), "lower": rep == 1}
+                    yield "addr", {"n": n, "addr": a, "data": "%X" % (rng.fill(n - 24) if rep else 0), "lower": rep == 1}
                 i += 1
     for k in range(ctx.share(100000 if quick else 4000000)):
         n = rng.choice((56, 112))
-        yield "addr", {"n": n, "addr": rng.getrandbits(24), "data": "%X" % rng.getrandbits(n - 24), "lower": k % 4 == 0}
+        yield "addr", {"n": n, "addr": rng.fill(24), "data": "%X" % rng.fill(n - 24), "lower": k % 4 == 0}
     # exhaustive field product, grouped per (UF, RR)
     for ufv in range(32):
         for rr in range(32):
@@ -184,7 +195,7 @@ def cases(ctx):
                 frames = []
                 for di in range(8):
                     for rrs in range(16):
-                        sd = rng.getrandbits(16)
+                        sd = rng.fill(16)
                         if di == 7:
                             sd = (sd & 0xF0FF) | (rrs << 8)
                         elif di == 3:
@@ -192,7 +203,7 @@ def cases(ctx):
                         n = 112 if ufv in (20, 21) or (ufv >= 16 and ufv not in (4, 5, 11) and rng.random() < 0.5) else 56
                         frames.append({"uf": ufv, "n": n, "pc": rng.randrange(8), "rr": rr, "di": di, "sd": sd,
                                        "pr": rng.randrange(16), "ic": rng.randrange(16), "cl": rng.randrange(8),
-                                       "addr": rng.getrandbits(24)})
+                                       "addr": rng.fill(24)})
                 yield "fields", {"frames": frames}
             i += 1
     # IIS x LOS / SIS x LSS
@@ -202,19 +213,19 @@ def cases(ctx):
                 frames = []
                 for code in range(64):
                     for lo in (0, 1):
-                        sd = rng.getrandbits(16)
+                        sd = rng.fill(16)
                         if di == 3:
                             sd = (sd & 0x01FF) | (code << 10) | (lo << 9)
                         else:
                             sd = (sd & 0x0FBF) | ((code & 15) << 12) | (lo << 6)
                         frames.append({"uf": ufv, "n": 112 if ufv >= 20 else 56, "pc": rng.randrange(8), "rr": rng.randrange(32),
-                                       "di": di, "sd": sd, "addr": rng.getrandbits(24)})
+                                       "di": di, "sd": sd, "addr": rng.fill(24)})
                 yield "fields", {"frames": frames}
             i += 1
     # UF11: PR x CL x IC
     for pr in range(16):
         if ctx.mine(i):
-            frames = [{"uf": 11, "n": 56, "pr": pr, "cl": cl, "ic": icf, "addr": rng.getrandbits(24)}
+            frames = [{"uf": 11, "n": 56, "pr": pr, "cl": cl, "ic": icf, "addr": rng.fill(24)}
                       for cl in range(8) for icf in range(16)]
             yield "fields", {"frames": frames}
         i += 1
@@ -224,6 +235,6 @@ def cases(ctx):
             for _ in range(128):
                 ufv = rng.choice((4, 5, 20, 21, 11, rng.randrange(32)))
                 frames.append({"uf": ufv, "n": 112 if ufv in (20, 21) else 56, "pc": rng.randrange(8), "rr": rng.randrange(32),
-                               "di": rng.randrange(8), "sd": rng.getrandbits(16), "pr": rng.randrange(16), "ic": rng.randrange(16),
-                               "cl": rng.randrange(8), "addr": rng.getrandbits(24)})
+                               "di": rng.randrange(8), "sd": rng.fill(16), "pr": rng.randrange(16), "ic": rng.randrange(16),
+                               "cl": rng.randrange(8), "addr": rng.fill(24)})
             yield "fields", {"frames": frames}
